@@ -33,6 +33,9 @@ def configs():
         out.append((2, (("sr", "s"), ("a", "ar", "s")), with_bg))
         out.append((3, (("s",), ("a", "s"), ("s", "sr")), with_bg))
         out.append((3, (("a", "a", "s"), ("s", "s"), ("ar",)), with_bg))
+        # one thread's request fails while it is being put together, between the other threads' requests
+        out.append((2, (("a", "f", "s"), ("a", "s", "s")), with_bg))
+        out.append((3, (("f", "s"), ("a", "s"), ("s", "f", "a")), with_bg))
     return out
 
 
@@ -96,6 +99,7 @@ def record(ctx, obs):
     ctx.count("preemptions_taken", obs["preemptions"])
     ctx.count("requests_completed", sum(1 for o in obs["outcomes"] if o[1][0] == "value"))
     ctx.count("frames_dispatched", len(obs["dispatch_counts"]))
+    ctx.count("requests_that_failed_while_being_put_together", obs.get("failed_requests", 0))
     if tainted:
         ctx.count("tainted_by_c14")
     for key, what in bad:
